@@ -40,7 +40,7 @@ Lemma dec0 : dec 0%Z = None.
 Proof. reflexivity. Qed.
 
 Definition extract_raw (ob : rowobj) : option row * rowobj :=
-  let '(raw, mRaw') := ptExtractRaw (enc (o_raw ob)) (if o_fl ob then 1%Z else 0%Z) 1%Z (fun _ => 0%Z) in
+  let '(raw, mRaw') := ptExtractRaw (enc (o_raw ob)) (if o_fl ob then 1%Z else 0%Z) 1%Z (fun _ => 0%Z) 5%Z in
   (dec raw, mkObj (o_live ob) (dec mRaw') (o_fl ob)).
 
 Local Arguments extract_raw : simpl never.
